@@ -478,6 +478,8 @@ package nbio
 // the drainer: knows its own index between critical sections; every job it takes is the next one submitted
 //@ func (*Conn).execute$1
 //@   props C05
+//@   note panic barrier (structural): a panicking job aborts only its own call; the jobs queued behind it are still taken
+//@   barrier job   // prop C05
 //@   safety index slice nil div assert panic make lock lockset
 //@   requires c != nil && c.gDToken && c.gDNext == 0 && !holds(c.mux)
 //@   ensures retired: !c.gDToken && !holds(c.mux)                                         // prop C05
